@@ -373,7 +373,7 @@ def stressCase (toks : List String) : String :=
   if c = 0 then "ok safe" else
   let n' := min n (max 1 (120 / p))
   let todo := (List.range p).map (fun t => (List.range n').map (fun i => t * 100000 + i))
-  let m := simLoop (p * n' * 400 + 4096) ⟨init c b, todo, seed + 1⟩
+  let m := simLoop (p * n' * 1600 + 16384) ⟨init c b, todo, seed + 1⟩
   let okAll := m.todo.all (·.isEmpty) && m.s.delivered == m.s.accepted && m.s.delivered.length == p * n' &&
     (List.range p).all (fun t => ofProducer t m.s.delivered == (List.range n').map (fun i => t * 100000 + i))
   if okAll then s!"ok accepted={p * n} delivered={p * n}" else "viol model-stranded"
